@@ -42,7 +42,10 @@ func drawSchedPlan(t *Tape) (*schedPlan, string) {
 		}
 		p.picks = append(p.picks, int(t.Draw(8)))
 	}
-	return p, fmt.Sprintf("mean preemption gap %v statements", mean)
+	// order of every map iteration the library performs in this run (0 = sorted keys)
+	ms := t.Draw(1 << 32)
+	simrt.SetMapSeed(ms)
+	return p, fmt.Sprintf("mean preemption gap %v statements, map-iteration seed %d", mean, ms)
 }
 
 //go:norace
@@ -226,7 +229,7 @@ func restoreBuiltins() {
 func init() {
 	register(&scenario{
 		Prop: "C19", Run: runC19, Race: true, Level: "exploration", Quick: 100000, Thorough: 3000000, AbortIsViolation: true,
-		Rule: "one run = 2-4 client tasks x 1-6 operations over 1-3 algorithm names drawn from {Registry(distinct service object with unique id), Registry(non-service), Get, Remove, Clear} against the real codec registry, optionally pre-populated; a seeded scheduler switches tasks at instrumented statements of codec/checksum.go and at every lock operation (mean preemption gap per run from {never,1,3,10,40} statements), blocked lock waiters are woken in seeded order. Oracles: (i) the recorded history (invoke/return stamped with the scheduler's global event sequence) is linearizable w.r.t. a sequential map model (porcupine; Unknown = inconclusive, never reported); a Get never returns a service registered under another name; (ii) Go race detector with scheduler hand-offs hidden from it, so only the library's own locking orders accesses (a report kills the worker, is attributed, re-executed and reported); (iii) deadlock / unlock-of-unlocked monitor; (iv) all operations complete within the run's step budget. Non-trivial = at least one context switch happened inside an operation and the history was checked; distinct = distinct run fingerprints (tape draws + observed results + interleaving).",
+		Rule:        "one run = 2-4 client tasks x 1-6 operations over 1-3 algorithm names drawn from {Registry(distinct service object with unique id), Registry(non-service), Get, Remove, Clear} against the real codec registry, optionally pre-populated; a seeded scheduler switches tasks at instrumented statements of codec/checksum.go and at every lock operation (mean preemption gap per run from {never,1,3,10,40} statements), blocked lock waiters are woken in seeded order. Oracles: (i) the recorded history (invoke/return stamped with the scheduler's global event sequence) is linearizable w.r.t. a sequential map model (porcupine; Unknown = inconclusive, never reported); a Get never returns a service registered under another name; (ii) Go race detector with scheduler hand-offs hidden from it, so only the library's own locking orders accesses (a report kills the worker, is attributed, re-executed and reported); (iii) deadlock / unlock-of-unlocked monitor; (iv) all operations complete within the run's step budget. Non-trivial = at least one context switch happened inside an operation and the history was checked; distinct = distinct run fingerprints (tape draws + observed results + interleaving).",
 		Assumptions: []string{"linearizability only: no fairness or lock hand-off order is asserted", "race reports are attributed to the library only when a library frame is on a reported stack"},
 	})
 }
@@ -413,15 +416,25 @@ func b2i(b bool) int {
 
 // ---------------------------------------------------------------- C20: independent messages in parallel
 
+// One operation of a task: encode the task's own message into its own buffer and, optionally,
+// decode bytes into its own receiver - the bytes just produced, or those bytes after a stream
+// fault (so that the error paths, unknown discriminators included, run concurrently too).
 type parOp struct {
-	encode bool
-	name   string
-	msg    any    // encode: the message; decode: the receiver
-	in     []byte // decode input
-	buf    *bytes.Buffer
+	name     string
+	msg      any // the task's own message object (encoded in place)
+	pre      any // clone taken before any library call
+	buf      *bytes.Buffer
+	doDecode bool
+	fault    int      // 0 none, 1 unknown discriminator, 2 bit flips, 3 connection cut
+	ftape    []uint64 // pre-drawn choices for the fault (tasks never touch the run's tape)
+	recv     any
 	// results
-	res callLite
-	out []byte
+	encRes callLite
+	decRes callLite
+	out    []byte // bytes appended by Encode
+	in     []byte // bytes given to Decode
+	fdesc  string
+	left   int
 }
 
 type callLite struct {
@@ -439,11 +452,26 @@ func liteCall(f func() error) (r callLite) {
 	return
 }
 
+// types that consult a discriminator table (frames and extended messages): where a lazily
+// built or cached dispatch structure would live
+var discTypesCache []string
+
+func discTypes() []string {
+	if discTypesCache == nil {
+		for _, n := range schema.Names {
+			if schema.Types[n].Table != "" {
+				discTypesCache = append(discTypesCache, n)
+			}
+		}
+	}
+	return discTypesCache
+}
+
 func init() {
 	register(&scenario{
-		Prop: "C20", Run: runC20, Race: true, Level: "exploration", Quick: 80000, Thorough: 2400000, AbortIsViolation: true,
-		Rule: "one run = 2-4 tasks, each encoding and decoding 1-4 of its own canonical messages (any of the 170 types, mixed protocols, frames included so the registry read lock and the discriminator tables are exercised) on its own buffers and receivers; a seeded scheduler switches tasks at instrumented statements of codec/ and the message packages (mean preemption gap per run from {never,1,3,10,40} statements); sync.Pool/Once/Mutex and go statements, should the tree use any, are under the scheduler. Oracles: every task's bytes/messages equal what the same operation produced alone beforehand on clones; Go race detector with scheduler hand-offs hidden from it; deadlock monitor. Non-trivial = at least one context switch landed inside a codec call and the comparison ran; distinct = distinct run fingerprints (tape draws + interleaving + outputs).",
-		Assumptions: []string{"'alone' results are computed in the same process before the tasks start, on clones of the same values", "race reports are attributed to the library only when a library frame is on a reported stack"},
+		Prop: "C20", Run: runC20, Race: true, Level: "exploration", Quick: 80000, Thorough: 2400000, AbortIsViolation: true, RunsPerProcess: 100,
+		Rule:        "one run = 2-4 tasks, each performing 1-4 operations on its own objects: encode its own canonical message (any of the 170 types, mixed protocols, frames included so the registry read lock and the discriminator tables are exercised) into its own buffer and then, for about half of them, decode bytes into its own receiver - the bytes just produced, or those bytes after a stream fault (unknown discriminator, bit flips, cut) so that error paths run concurrently too. In one run of three all tasks use the same discriminator-carrying type (collision on one dispatch table). No library call precedes the tasks in the run, the 'alone' results are computed sequentially AFTER the parallel phase, and worker processes are restarted every 100 runs, so the first run of each process exercises a cold library (lazily built tables). A seeded scheduler switches tasks at instrumented statements of codec/ and the message packages (mean preemption gap per run from {never,1,3,10,40} statements); sync.Pool/Once/Mutex, go statements and map iteration order, should the tree use any, are under the simulator. Oracles: every task's bytes/messages/errors equal what the same operation produces alone on clones; Go race detector with scheduler hand-offs hidden from it; deadlock monitor. Non-trivial = at least one context switch landed inside a codec call and the comparison ran; distinct = distinct run fingerprints (tape draws + interleaving + outputs).",
+		Assumptions: []string{"'alone' results are computed in the same process after the tasks have finished, on clones of the same values", "race reports are attributed to the library only when a library frame is on a reported stack"},
 	})
 }
 
@@ -456,38 +484,36 @@ func runC20(c *RunCtx) {
 	if g.cfg.StrCap > 600 {
 		g.cfg.StrCap = 600
 	}
+	collide := ""
+	if t.Intn(3) == 0 {
+		dt := discTypes()
+		collide = dt[t.Intn(len(dt))]
+		c.Probe("all-tasks-on-one-discriminator-table")
+	}
 	ntasks := 2 + t.Intn(3)
 	plans := make([][]*parOp, ntasks)
-	type alone struct {
-		out []byte
-		msg any
-		err bool
-	}
-	var want [][]alone
 	for ti := range plans {
 		nops := 1 + t.Intn(4)
-		var w []alone
 		for j := 0; j < nops; j++ {
-			name := pickType(t, 5)
-			s, ok := genSent(c, g, name)
-			if !ok {
-				continue
+			name := collide
+			if name == "" {
+				name = pickType(t, 5)
+			}
+			m := g.Value(name)
+			op := &parOp{name: name, msg: m, pre: Clone(m), buf: &bytes.Buffer{}}
+			if t.Intn(2) == 0 {
+				op.doDecode = true
+				op.recv = newValue(name)
+				if t.Intn(3) == 0 {
+					op.fault = 1 + t.Intn(3)
+					for k := 0; k < 12; k++ {
+						op.ftape = append(op.ftape, t.Bits())
+					}
+				}
 			}
 			c.Count("type."+name, 1)
-			if t.Intn(2) == 0 {
-				op := &parOp{encode: true, name: name, msg: Clone(s.pre), buf: &bytes.Buffer{}}
-				plans[ti] = append(plans[ti], op)
-				w = append(w, alone{out: s.w})
-			} else {
-				// alone decode
-				ref := newValue(name)
-				rr := tryDecode(ref, bytes.NewBuffer(cloneBytes(s.w)))
-				op := &parOp{encode: false, name: name, msg: newValue(name), in: s.w, buf: bytes.NewBuffer(cloneBytes(s.w))}
-				plans[ti] = append(plans[ti], op)
-				w = append(w, alone{msg: ref, err: rr.Err != nil || rr.Panic != nil})
-			}
+			plans[ti] = append(plans[ti], op)
 		}
-		want = append(want, w)
 	}
 	sp, sdesc := drawSchedPlan(t)
 	c.Logf("%d tasks; scheduler: %s", ntasks, sdesc)
@@ -497,11 +523,41 @@ func runC20(c *RunCtx) {
 		sched.Spawn(fmt.Sprintf("worker%d", ti), func() {
 			for _, op := range ops {
 				cd := asCodec(op.msg)
-				if op.encode {
-					op.res = liteCall(func() error { return cd.Encode(op.buf) })
-				} else {
-					op.res = liteCall(func() error { return cd.Decode(op.buf) })
+				op.encRes = liteCall(func() error { return cd.Encode(op.buf) })
+				op.out = cloneBytes(op.buf.Bytes())
+				if !op.doDecode || op.encRes.Err != nil || op.encRes.Panic != nil {
+					op.doDecode = false
+					continue
 				}
+				op.in = op.out
+				op.fdesc = "the bytes just encoded"
+				if op.fault != 0 {
+					ft := ReplayTape(op.ftape)
+					spans, total := Layout(op.msg)
+					if total != len(op.out) {
+						spans = nil
+					}
+					switch op.fault {
+					case 1:
+						w, d, ok := unknownDiscriminator(ft, op.out, spans)
+						if ok {
+							op.in, op.fdesc = w, d
+						} else {
+							op.in, op.fdesc = flipBits(ft, op.out, spans)
+						}
+					case 2:
+						op.in, op.fdesc = flipBits(ft, op.out, spans)
+					default:
+						if len(op.out) > 0 {
+							k := ft.Intn(len(op.out))
+							op.in, op.fdesc = op.out[:k], fmt.Sprintf("cut(%d of %d)", k, len(op.out))
+						}
+					}
+				}
+				rb := bytes.NewBuffer(cloneBytes(op.in))
+				rd := asCodec(op.recv)
+				op.decRes = liteCall(func() error { return rd.Decode(rb) })
+				op.left = rb.Len()
 			}
 		})
 	}
@@ -522,11 +578,11 @@ func runC20(c *RunCtx) {
 	if c.Tracing {
 		for ti, ops := range plans {
 			for _, op := range ops {
-				kind := "Decode"
-				if op.encode {
-					kind = "Encode"
+				if op.doDecode {
+					c.Logf("worker%d Encode %s, then Decode %s", ti, op.name, op.fdesc)
+				} else {
+					c.Logf("worker%d Encode %s", ti, op.name)
 				}
-				c.Logf("worker%d %s %s", ti, kind, op.name)
 			}
 		}
 		for _, l := range renderSwitches(sched.Switches) {
@@ -554,32 +610,52 @@ func runC20(c *RunCtx) {
 		c.Fail("C20/no-progress", "", "parallel encode/decode did not finish within the step budget")
 		return
 	}
+	// the same operations alone, afterwards, on clones
 	for ti, ops := range plans {
-		for j, op := range ops {
-			w := want[ti][j]
+		for _, op := range ops {
 			c.Oracle("parallel-equals-alone")
-			if op.encode {
-				if op.res.Panic != nil || op.res.Err != nil {
-					c.Fail("C20/differs-from-alone", op.name, "worker%d: Encode of %s failed in parallel (err=%v panic=%v) but succeeds alone", ti, op.name, op.res.Err, op.res.Panic)
-					return
-				}
-				c.T.ObserveBytes(op.buf.Bytes())
-				if !bytes.Equal(op.buf.Bytes(), w.out) {
-					c.Fail("C20/differs-from-alone", op.name, "worker%d: Encode of %s produced %s in parallel but %s alone (first difference at %d)", ti, op.name, hexClip(op.buf.Bytes(), 64), hexClip(w.out, 64), firstDiff(op.buf.Bytes(), w.out))
-					return
-				}
-			} else {
-				failed := op.res.Panic != nil || op.res.Err != nil
-				if failed != w.err {
-					c.Fail("C20/differs-from-alone", op.name, "worker%d: Decode of %s in parallel: err=%v panic=%v; alone failed=%v", ti, op.name, op.res.Err, op.res.Panic, w.err)
-					return
-				}
-				if !failed {
-					if ok, d := Equal(w.msg, op.msg); !ok {
-						c.Fail("C20/differs-from-alone", op.name, "worker%d: Decode of %s in parallel differs from the result alone at %s", ti, op.name, d)
-						return
-					}
-				}
+			var ab bytes.Buffer
+			ar := tryEncode(Clone(op.pre), &ab)
+			aFailed := ar.Err != nil || ar.Panic != nil
+			pFailed := op.encRes.Err != nil || op.encRes.Panic != nil
+			if aFailed != pFailed {
+				c.Fail("C20/differs-from-alone", op.name, "worker%d: Encode of %s in parallel: err=%v panic=%v; alone: err=%v panic=%v", ti, op.name, op.encRes.Err, op.encRes.Panic, ar.Err, ar.Panic)
+				return
+			}
+			if aFailed {
+				c.Probe("encode-fails-alone-and-in-parallel")
+				continue
+			}
+			c.T.ObserveBytes(op.out)
+			if !bytes.Equal(op.out, ab.Bytes()) {
+				c.Fail("C20/differs-from-alone", op.name, "worker%d: Encode of %s produced %s in parallel but %s alone (first difference at %d)", ti, op.name, hexClip(op.out, 64), hexClip(ab.Bytes(), 64), firstDiff(op.out, ab.Bytes()))
+				return
+			}
+			if !op.doDecode {
+				continue
+			}
+			if op.fault != 0 {
+				c.Probe("parallel-decode-of-faulted-bytes")
+			}
+			ref := newValue(op.name)
+			arb := bytes.NewBuffer(cloneBytes(op.in))
+			dr := tryDecode(ref, arb)
+			aFailed = dr.Err != nil || dr.Panic != nil
+			pFailed = op.decRes.Err != nil || op.decRes.Panic != nil
+			if aFailed != pFailed || (dr.Panic != nil) != (op.decRes.Panic != nil) {
+				c.Fail("C20/differs-from-alone", op.name, "worker%d: Decode of %s (%s) in parallel: err=%v panic=%v; alone: err=%v panic=%v", ti, op.name, op.fdesc, op.decRes.Err, op.decRes.Panic, dr.Err, dr.Panic)
+				return
+			}
+			if aFailed {
+				continue
+			}
+			if op.left != arb.Len() {
+				c.Fail("C20/differs-from-alone", op.name, "worker%d: Decode of %s left %d bytes unread in parallel, %d alone", ti, op.name, op.left, arb.Len())
+				return
+			}
+			if ok, d := Equal(ref, op.recv); !ok {
+				c.Fail("C20/differs-from-alone", op.name, "worker%d: Decode of %s in parallel differs from the result alone at %s", ti, op.name, d)
+				return
 			}
 		}
 	}
